@@ -107,6 +107,8 @@ class Models:
         R(r'^<(core::slice::Iter<.*>|core::iter::\w+<.*>|core::ops::Range<usize>) as core::iter::(Iterator|IntoIterator|DoubleEndedIterator)>::'
           r'(rev|enumerate|copied|cloned|take|skip|into_iter|by_ref|next)(::<.*>)?$', m_iter_op)
         R(r'^arch::all::memchr::has_zero_byte$', m_has_zero_byte)
+        # any ranker: the result of `rank` is an arbitrary u8 (C19 quantifies over all HeuristicFrequencyRank impls)
+        R(r' as arch::all::packedpair::HeuristicFrequencyRank>::rank$', m_opaque)
         # summary of the public unsafe fn is_equal_raw (proved at its own root: C18 EQ-TRUE / EQ-FALSE)
         R(r'^arch::all::is_equal_raw$', m_is_equal_raw)
         # Fn-trait shims for fn items: call the item
